@@ -402,20 +402,34 @@ impl ListenerRegistry {
         selected.cloned()
     }
 
-    fn single_provisional(&self) -> Option<mpsc::Sender<(RtpPacket, SocketAddr)>> {
-        let mut selected: Option<&mpsc::Sender<(RtpPacket, SocketAddr)>> = None;
+    fn single_provisional(&self, pt: u8) -> Option<mpsc::Sender<(RtpPacket, SocketAddr)>> {
+        let mut selected: Option<&ListenerRoute> = None;
 
         for route in self.routes.iter().filter(|route| route.provisional) {
             if let Some(existing) = selected {
-                if !existing.same_channel(&route.tx) {
+                if !existing.tx.same_channel(&route.tx) {
                     return None;
                 }
             } else {
-                selected = Some(&route.tx);
+                selected = Some(route);
             }
         }
 
-        selected.cloned()
+        let route = selected?;
+        // A payload type listed by other routes belongs to their media sections. If it did
+        // not identify one of them unambiguously the packet is dropped; it must not be handed
+        // to a provisional listener whose own payload-type list excludes it.
+        if !route.payload_types.is_empty()
+            && !route.payload_types.contains(&pt)
+            && self
+                .routes
+                .iter()
+                .any(|other| !other.tx.same_channel(&route.tx) && other.payload_types.contains(&pt))
+        {
+            return None;
+        }
+
+        Some(route.tx.clone())
     }
 
     fn bind_ssrc_route(&mut self, ssrc: u32, tx: mpsc::Sender<(RtpPacket, SocketAddr)>) {
@@ -1124,7 +1138,7 @@ impl PacketReceiver for RtpTransport {
                 }
 
                 if selected.is_none() {
-                    selected = listeners.single_provisional();
+                    selected = listeners.single_provisional(pt);
                     bind_ssrc = false;
                 }
 
